@@ -27,7 +27,7 @@ type C14Scenario struct {
 	Server refsmtpd.Config `json:"server"`
 	Equal  bool            `json:"equal"`
 	How    string          `json:"how"`   // how the presented credentials differ
-	Retry  string          `json:"retry"` // "" | fail-then-retry (same Auth value, new connection)
+	Retry  string          `json:"retry"` // "" | fail-then-retry (same Auth value, new connection) | redial (same Client, second connection)
 	Sched  uint64          `json:"sched"`
 }
 
@@ -207,6 +207,11 @@ func (p *c14) Gen(seed uint64, i int, tier string) (any, bool) {
 	}
 	if strings.HasPrefix(mech, "CUSTOM-SCRAM") {
 		sc.Retry = "fail-then-retry"
+	} else if r.Chance(1, 5) {
+		// the same Client connects, disconnects and connects again: the second connection
+		// authenticates like the first (nothing of the first exchange or its TLS session is
+		// carried over)
+		sc.Retry = "redial"
 	}
 	// the outcome must not depend on whether the dialogue is being logged
 	if r.Chance(1, 3) {
@@ -223,7 +228,7 @@ func (p *c14) Exec(t *testing.T, scAny any) Outcome {
 	var calls []*CallRec
 	res := RunSim(t, sc.Sched, sim.Policy{Kind: "random"}, 0, time.Hour, func(k *sim.Kernel) (func(), func()) {
 		env = &NetEnv{K: k, Srv: refsmtpd.New(k, sc.Server, TLSMat), Host: sc.Client.host()}
-		if sc.Retry != "" {
+		if sc.Retry == "fail-then-retry" {
 			// first connection: the server refuses the proof step, whatever the credentials
 			env.Srv.Cfg.Rules = append(env.Srv.Cfg.Rules, refsmtpd.Rule{Verb: "AUTHRESP", Nth: 2, Conn: 1, Action: refsmtpd.Action{Code: 454, Text: "temporary authentication failure"}})
 		}
